@@ -43,6 +43,7 @@ package gzip
 //@   modifies z.buf, extWrites, lastWriteErr, **z.w
 //@   ensures[C14 dst-err] err == nil ==> !dstFailed(z.w)
 //@   ensures same(z.w)
+//@   loop 1 invariant[C06 latin1-threshold] v > 127 ==> needconv
 
 //@ pure le32(b []byte, o int) uint32 = uint32(b[o]) | uint32(b[o+1])<<8 | uint32(b[o+2])<<16 | uint32(b[o+3])<<24
 
@@ -108,6 +109,7 @@ package gzip
 //@   ensures brOK(z.r)
 //@   ensures[C07 C15 no-eof-here] true
 //@   loop 1 invariant 0 <= i && brOK(z.r)
+//@   loop 1 invariant[C06 latin1-read] forall k :: 0 <= k && k < i && k < len(z.buf) ==> z.buf[k] != 0 && (z.buf[k] > 127 ==> needConv)
 
 //@ func (*Reader).readHeader
 //@   requires z.r != nil && brOK(z.r) && (typeis(z.decompressor, *github.com/intel/fastgo/compress/flate.decompressor) ==> ((z.decompressor.(*github.com/intel/fastgo/compress/flate.decompressor).rBuf != nil ==> brOK(z.decompressor.(*github.com/intel/fastgo/compress/flate.decompressor).rBuf)) && tabsOK(&z.decompressor.(*github.com/intel/fastgo/compress/flate.decompressor).state)))
